@@ -14,7 +14,7 @@
 (* Sim = TRUE draws each choice with RandomElement (one successor per      *)
 (* state: for `tlc -simulate`); Sim = FALSE enumerates every choice.       *)
 (***************************************************************************)
-EXTENDS IOUtils, MonC07, MonC08, MonC09, MonC10, MonC11, MonC12, MonC13, MonC15, MonC16, MonC19, Randomization
+EXTENDS IOUtils, Json, MonC07, MonC08, MonC09, MonC10, MonC11, MonC12, MonC13, MonC15, MonC16, MonC19, Randomization
 
 CONSTANTS Sim,        \* BOOLEAN
           Forge,      \* BOOLEAN: forged / duplicated timers allowed
@@ -25,10 +25,11 @@ CONSTANTS Sim,        \* BOOLEAN
           MonSetDefault, \* monitors to run unless MC_MONSET=Cxx selects a single one
           Scope       \* "tiny" | "full": size of the datagram alphabet
 
+WantScripts == "MC_SCRIPTS" \in DOMAIN IOEnv
 MonSet == IF "MC_MONSET" \in DOMAIN IOEnv THEN {IOEnv.MC_MONSET} ELSE MonSetDefault
 
-VARIABLES st, pend, mon, steps, lastObs, epochs
-vars == <<st, pend, mon, steps, lastObs, epochs>>
+VARIABLES st, pend, mon, steps, lastObs, epochs, script
+vars == <<st, pend, mon, steps, lastObs, epochs, script>>
 
 OwnAddr == 1
 PeerIds == {<<a, g>> : a \in PeerAddrs, g \in Gens}
@@ -63,6 +64,7 @@ Init ==
     /\ steps = 0
     /\ lastObs = <<>>
     /\ epochs = 0
+    /\ script = <<>>
 
 -----------------------------------------------------------------------------
 \* the input alphabet
@@ -188,6 +190,13 @@ Do(call) ==
          /\ steps' = steps + 1
          /\ lastObs' = [call |-> call[1], res |-> r.res]
          /\ epochs' = epochs + bumps
+         \* the environment inputs of this behaviour, with the context needed to re-express state-dependent
+         \* values (own identity, probe number, timer token) on a real instance: see harness/src/replay.rs
+         /\ script' = IF WantScripts
+                       THEN Append(script, [call |-> call[1], args |-> call[2], pending |-> call[3] > 0,
+                                            ctx |-> [id |-> st.id, n |-> st.probe.n, tok |-> st.tok,
+                                                     pol |-> st.pol, pred |-> st.hpred, cfg |-> st.cfg]])
+                       ELSE script
 
 Next ==
     /\ steps < MaxSteps
@@ -203,6 +212,9 @@ Spec == Init /\ [][Next]_vars
 -----------------------------------------------------------------------------
 \* C06 on the specification: the assertion state (send_buf capacity vs max_packet_size, the only
 \* debug assertion whose truth depends on the call history) never trips, whatever the history
+\* printed once per simulated behaviour (at its last state); parsed by tools/check.py
+ScriptOut == (WantScripts /\ steps = MaxSteps) => PrintT(<<"SCRIPT", ToJson(script)>>)
+
 NoPanic == lastObs # <<>> => lastObs.res # "Panic"
 
 MonitorsQuiet == \A p \in (MonSet \cap DOMAIN mon) : mon[p].v = {}
